@@ -159,3 +159,83 @@ def install_kv(ctx, size=None, fail_at=None, exc='sqlite3.OperationalError'):
         if getattr(m, 'KVFile', None) is not None:
             m.KVFile = KVTwin
     return state
+
+
+class Poison:
+    """A cell value whose use raises: the *built-in* step that first touches it (formats it, compares it, hashes it,
+    iterates it, adds it ...) raises from its own frame, at a known row.  isinstance checks do not touch it."""
+
+    def __init__(self, exc_name, ctx):
+        object.__setattr__(self, '_exc_name', exc_name)
+        object.__setattr__(self, '_ctx', ctx)
+
+    def _fire(self, how):
+        ctx = object.__getattribute__(self, '_ctx')
+        ctx.fault('poison')
+        ctx.log('fault', 'poison', how)
+        raise make_exc(object.__getattribute__(self, '_exc_name'), 'poison')
+
+    def __str__(self):
+        self._fire('str')
+
+    def __repr__(self):
+        return '<Poison>'
+
+    def __format__(self, spec):
+        self._fire('format')
+
+    def __eq__(self, other):
+        self._fire('eq')
+
+    def __ne__(self, other):
+        self._fire('ne')
+
+    def __hash__(self):
+        self._fire('hash')
+
+    def __lt__(self, other):
+        self._fire('lt')
+
+    __gt__ = __le__ = __ge__ = __lt__
+
+    def __iter__(self):
+        self._fire('iter')
+
+    def __add__(self, other):
+        self._fire('add')
+
+    __radd__ = __mul__ = __rmul__ = __sub__ = __rsub__ = __truediv__ = __rtruediv__ = __add__
+
+    def __bool__(self):
+        self._fire('bool')
+
+    def __len__(self):
+        self._fire('len')
+
+    def __float__(self):
+        self._fire('float')
+
+    def __int__(self):
+        self._fire('int')
+
+    def __reduce__(self):
+        self._fire('pickle')
+
+    def __deepcopy__(self, memo):
+        self._fire('deepcopy')
+
+
+def poisoner(fault, ctx):
+    """A rows-step replacing one cell (resource r, row k, field by position) with a Poison."""
+    state = {'res': -1}
+
+    def step(rows):
+        state['res'] += 1
+        for k, row in enumerate(rows):
+            if state['res'] == fault['res'] and k == fault['row'] and row:
+                names = [n for n in row if n != '_id'] or list(row)
+                name = names[fault.get('field', 0) % len(names)]
+                row[name] = Poison(fault['exc'], ctx)
+                ctx.log('fault', 'poison-planted', state['res'], k, name)
+            yield row
+    return step
